@@ -317,7 +317,8 @@ def vec_misc(inp, W):
     elif m == "concat":
         others = [inp["other"]]
         out = v.concat(inp["other"])
-    elif m in ("as_float", "as_object", "as_boolean", "as_string", "as_integer"): out = getattr(v, m)()
+    elif m in ("as_float", "as_object", "as_boolean", "as_string", "as_integer", "as_date", "as_datetime"): out = getattr(v, m)()
+    elif m == "as_datetime_ns": out = v.as_datetime("ns")
     elif m == "map": out = v.map(lambda x: x)
     elif m == "range": out = v.range()
     elif m == "sample":
